@@ -113,7 +113,16 @@ func classifyDump(dump string) string {
 		}
 		seen++
 		state := m[1]
-		if strings.HasPrefix(state, "running") || strings.HasPrefix(state, "runnable") || strings.HasPrefix(state, "syscall") {
+		blocked := false
+		for _, b := range []string{"chan receive", "chan send", "select", "semacquire", "sync.", "IO wait", "idle", "GC ", "finalizer wait", "force gc", "debug call", "trace reader"} {
+			if strings.HasPrefix(state, b) {
+				blocked = true
+			}
+		}
+		// anything that is not parked on a channel / lock is progress: running, runnable, syscall, and also
+		// sleep (the verif-tagged scheduling points perturb the compiler with time.Sleep; a sleeping goroutine
+		// wakes up by itself, a deadlocked process has none)
+		if !blocked || strings.HasPrefix(state, "running") || strings.HasPrefix(state, "runnable") || strings.HasPrefix(state, "syscall") {
 			// some goroutine of the compiler was still executing when the deadline passed: the process was
 			// slow (a loaded machine), not stuck
 			if !strings.Contains(b, "os/signal") && !strings.Contains(b, "runtime.ensureSigM") {
